@@ -5,7 +5,7 @@
     critical sections and every schedule of goroutines is a sequence of whole operations. *)
 From Coq Require Import String List.
 Import ListNotations.
-From updog Require Import Conc LockPolicy.
+From updog Require Import Conc LockPolicy SingleSection.
 From Gen Require Import LockFacts.
 Local Open Scope list_scope.
 
@@ -38,4 +38,33 @@ Theorem C17_operations_atomic threads it :
       end.
 Proof. intros Hin. apply T3_atomicity. apply C17_locks_any_threads, Hin. Qed.
 
+(** Each Open / Close is ONE critical section: between two guarded accesses of one operation
+    (at least one of them a write) no other goroutine touches the connection cache, acquires
+    or releases the driver mutex (SingleSection.v: max_acq <= 1 bounds the acquisitions of every
+    execution). *)
+Theorem C17_operation_is_one_section threads it i entry :
+  (forall t, In t threads -> In t skeletons_C17) -> admissible policy_C17 funs threads it ->
+  nth_error threads i = Some entry ->
+  forall pre loc1 w1 mid loc2 w2 post,
+    it = pre ++ (i, EvAcc loc1 w1) :: mid ++ (i, EvAcc loc2 w2) :: post ->
+    guard_of policy_C17 loc1 = Some (GuardedBy "updogDriver.fileConnMtx") ->
+    guard_of policy_C17 loc2 = Some (GuardedBy "updogDriver.fileConnMtx") ->
+    w1 = true \/ w2 = true ->
+    forall j e, In (j, e) mid -> j <> i ->
+      match e with
+      | EvAcq l' _ | EvRel l' _ => l' <> "updogDriver.fileConnMtx"
+      | EvAcc loc' _ => guard_of policy_C17 loc' <> Some (GuardedBy "updogDriver.fileConnMtx")
+      end.
+Proof.
+  intros Hin Hadm Hnth.
+  apply (operation_atomic_excl policy_C17 funs threads it i entry "updogDriver.fileConnMtx" 8).
+  - apply C17_locks_any_threads, Hin.
+  - exact Hadm.
+  - exact Hnth.
+  - apply PeanoNat.Nat.leb_le.
+    pose proof C17_single_section as Hs. rewrite forallb_forall in Hs. apply Hs, Hin.
+    eapply nth_error_In. exact Hnth.
+Qed.
+
 Print Assumptions C17_operations_atomic.
+Print Assumptions C17_operation_is_one_section.
